@@ -619,6 +619,15 @@ func (r *refRun) stop() {
 	<-r.done
 }
 
+// sidFor: the session id an abstract session number stands for. Numbers below 1000 share the pool of four ids (so that
+// scenarios meet the same ids again); numbers from 1000 on get an id of their own (crowds of sessions on one connection).
+func (r *refRun) sidFor(n int) uint32 {
+	if n < 1000 {
+		return r.sidPool[n%len(r.sidPool)]
+	}
+	return r.sidPool[0] ^ (uint32(n-999) * 2654435761)
+}
+
 func parseAddr(s string) *net.TCPAddr {
 	ip := net.ParseIP(s)
 	if ip == nil {
@@ -680,7 +689,7 @@ func (r *refRun) feed0(st *refConnState, s *RStep, i int) bool {
 	if s.Cut > 0 && s.Cut < len(body) {
 		body = body[:len(body)-s.Cut]
 	}
-	sid := r.sidPool[s.Sid%len(r.sidPool)]
+	sid := r.sidFor(s.Sid)
 	ty := s.Ty
 	if ty == 0 {
 		ty = s.P.headerType()
@@ -835,7 +844,7 @@ func (r *refRun) runScenario(sc *RScen) {
 			}
 			seen[kk] = true
 			k++
-			sidv := r.sidPool[s.Sid%len(r.sidPool)]
+			sidv := r.sidFor(s.Sid)
 			r.cur = r.loaderFor2(&sc.Cfg, false) // "the only session the server ever sees": fresh configuration objects
 			st := r.open(k, addr[s.C], E{"iso": true, "of": s.C, "sid": U32(sidv)})
 			for i := range sc.Steps {
